@@ -81,6 +81,7 @@ type Table struct {
 	Lookup  string  `json:"lookup"`
 	Reg     string  `json:"reg"`
 	KeyKind string  `json:"keykind"` // num|str
+	KeyType string  `json:"keytype"` // Go type of the key
 	Entries []Entry `json:"entries"` // in registration order (last wins)
 }
 
@@ -1070,7 +1071,7 @@ func src2(n ast.Node) string {
 
 func (pi *pkgInfo) tables(sc *Schema, tyID func(pkg, name string) (int, bool)) {
 	// lookup functions: func NewX(key K) (codec.BinaryCodec, error) { if factory, ok := CACHE[key]; ok {...} }
-	type lk struct{ name, cache, kind string }
+	type lk struct{ name, cache, kind, kt string }
 	var lks []lk
 	for name, fd := range pi.funcs {
 		if fd.Type.Params == nil || len(fd.Type.Params.List) != 1 || fd.Type.Results == nil || len(fd.Type.Results.List) != 2 {
@@ -1107,7 +1108,7 @@ func (pi *pkgInfo) tables(sc *Schema, tyID func(pkg, name string) (int, bool)) {
 		} else if scalarWidth(kt) == 0 {
 			continue
 		}
-		lks = append(lks, lk{name, cache.Name, kind})
+		lks = append(lks, lk{name, cache.Name, kind, kt})
 	}
 	sort.Slice(lks, func(i, j int) bool { return lks[i].name < lks[j].name })
 	for _, l := range lks {
@@ -1122,7 +1123,7 @@ func (pi *pkgInfo) tables(sc *Schema, tyID func(pkg, name string) (int, bool)) {
 				}
 			}
 		}
-		t := &Table{ID: len(sc.Tables), Pkg: pi.short, Lookup: l.name, Reg: reg, KeyKind: l.kind}
+		t := &Table{ID: len(sc.Tables), Pkg: pi.short, Lookup: l.name, Reg: reg, KeyKind: l.kind, KeyType: l.kt}
 		// registrations anywhere in init functions of the package (file order = sorted file names)
 		var inits []string
 		for name := range pi.funcs {
